@@ -5,7 +5,7 @@ import ast as _ast
 
 from ..common import all_conds, conds_at, mro_methods, nshow, outer_field, paths, visible_methods
 from ..effects import Effects, fmt_eff
-from ..expr import C, SELF, canon, norm, show, strip_epochs, walk
+from ..expr import C, SELF, canon, norm, posform, posroot, rowform, show, strip_epochs, walk
 from ..model import AnalysisError
 from ._setops import combine_rule, similarity_components
 
@@ -39,10 +39,16 @@ def _probe_parts(atom):
 
 
 def _loop_dom(e):
-    for n in walk(e):
-        if n[0] == "it":
-            return n[2]
+    for n in walk(rowform(e)):
+        if n[0] in ("it", "ix"):
+            return posroot(n[2])
     return None
+
+
+def _shape(idx, mask):
+    """(byte index, mask, walked domain) with loop positions named abstractly: the same for a statement loop, a comprehension,
+    divmod / tuple unpacking and hoisted locals"""
+    return canon(posform(idx)), canon(posform(mask)), canon(_loop_dom(idx) or C(None))
 
 
 def storage_rules(prog, rep, E, ctx):
@@ -98,8 +104,9 @@ def add_check_agreement(prog, rep, ctx):
                 idx = canon(e.index)
                 rd = canon(("sub", ("f", SELF, "_bloom", 0), strip_epochs(e.index), 0))
                 if v[0] == "nary" and v[1] == "|" and rd in v[2] and len(v[2]) == 2:
-                    m = [t for t in v[2] if t != rd][0]
-                    stores[(idx, m, canon(_loop_dom(e.index) or C(None)))] = e
+                    raw = [t for t in (e.value[2] if e.value[0] == "nary" else ()) if canon(t) != rd]
+                    if len(raw) == 1:
+                        stores[_shape(e.index, raw[0])] = e
     if len(stores) != 1:
         rep.bad("C01.add-check-agree", where, f"{len(stores)} store shapes in add_alt", "add_alt does not have exactly one OR-store shape", add.where())
         return
@@ -113,6 +120,16 @@ def add_check_agreement(prog, rep, ctx):
             continue
         rv = p.exit[1]
         inloop_ret = bool([e for e in p.events if e.kind == "return" and e.loops])
+        rvs = strip_epochs(rv)
+        if rvs[0] == "call" and rvs[1] == ("g", "all") and len(rvs[2]) == 1 and rvs[2][0][0] == "comp" and not [c for c in p.conds if c.atom[0] != "loop0"]:
+            # all(<probe> for ...): False exactly when some probed bit is clear
+            el = rowform(("it", "Lq", rv[2][0]))
+            pp = _probe_parts(strip_epochs(el)) if not (el[0] == "cmp" and el[1] == "==") else None
+            if pp is None:
+                rep.bad("C01.add-check-agree", where, f"all({nshow(el)})", f"check_alt returns all({nshow(el)}), whose element is not a probe of the bit array", chk.where(p.exit[2]))
+                return
+            probes.add(_shape(pp[0], pp[1]))
+            continue
         pcs = [(c, _probe_parts(strip_epochs(c.atom))) for c in p.conds if c.atom[0] != "loop0"]
         for c, pp in pcs:
             if pp is None:
@@ -120,7 +137,7 @@ def add_check_agreement(prog, rep, ctx):
                         f"check_alt decides on {nshow(c.atom)}, which is not a probe of the bit array", chk.where(c.node))
                 return
             zero = ((c.atom[1] == "==") == c.truth) if c.atom[0] == "cmp" else (not c.truth)
-            probes.add((canon(pp[0]), canon(pp[1]), canon(_loop_dom(pp[0]) or C(None))))
+            probes.add(_shape(pp[0], pp[1]))
             if zero and rv != C(False):
                 rep.bad("C01.add-check-agree", where, "zero bit not reported absent", "a zero probe does not lead to False", chk.where(c.node))
                 return
